@@ -9,10 +9,11 @@ SRC=/tmp/seed_$P/$V
 WT=/tmp/vs_${P}_$V
 OUT=/verif/seeded/$P-$V
 rm -rf $WT; git -C /repo worktree prune; git -C /repo worktree add -q --detach $WT HEAD || exit 3
-dest=$(grep -m1 -o 'Copy this file to: *[^ ]*' $SRC/demo_test.go | awk '{print $NF}')
+dest=$(grep -m1 -o 'Copy this file to: *[^ ]*' $SRC/demo_test.go | awk '{print $NF}' | sed 's#^<repo>/##;s#^<checkout>/##')
 runpat=$(grep -m1 -o "\-run '[^']*'" $SRC/demo_test.go | sed "s/-run '//;s/'//")
 pkgdir=$(dirname $dest)
 log=$SRC/verify.log; : > $log
+mkdir -p $WT/$pkgdir
 cp $SRC/demo_test.go $WT/$dest
 (cd $WT && timeout 900 go test -mod=mod -vet=off -count=1 -run "$runpat" ./$pkgdir/ >> $log 2>&1); demo_without=$?
 rm $WT/$dest
